@@ -442,7 +442,7 @@ def check_init(case, stats):
 CHECKS = {'check_convert': check_convert, 'check_prior': check_prior, 'check_init': check_init}
 _STR = {'check_convert': convert_case, 'check_prior': prior_case, 'check_init': init_case}
 _B = {'quick': dict(check_convert=2400, check_prior=480, check_init=480),
-      'thorough': dict(check_convert=100000, check_prior=6000, check_init=6000)}
+      'thorough': dict(check_convert=100000, check_prior=20000, check_init=20000)}
 
 
 def shards(tier):
